@@ -2,21 +2,24 @@ CONSTANTS NS = 1
   NP = 3
   LinkPeer <- NoLinks
   Hosts <- H2
-  InitAt <- At1_same
-  MovePorts <- Mv1
-  Dsts <- DOne
+  InitAt <- At1_2
+  MovePorts <- Mv13
+  Dsts <- DPair
   Shapes <- ShA
   Gaps <- GNone
   Sweeps <- BT
   Caches <- BT
   DropInPort = TRUE
-  DeleteOnMove = TRUE
+  DeleteOnMove = FALSE
   IdleTO = 10
   HardTO = 30
   DropTO = 10
-  D = 4
+  D = 7
 INIT Init
 NEXT Next
 CHECK_DEADLOCK FALSE
 CONSTRAINT Bound
-INVARIANT Export
+CONSTRAINT Narrow
+VIEW viewN
+INVARIANT TypeOK
+PROPERTY Conforms
